@@ -5,7 +5,11 @@
 EXTENDS TypeReg
 CONSTANT MaxAdds
 McBuiltinIf == <<"logger", "iterator">>
-McFixedSize(id) == CASE id = 1 -> 4 [] id = 30 -> 16 [] OTHER -> 0
+\* 1, 30: a core and a managed built-in; 98..121: the numeric scalars b n i x y q u t f d e
+McFixedSize(id) == CASE id = 1 -> 4 [] id = 30 -> 16
+                     [] id = 98 -> 1 [] id = 110 -> 2 [] id = 105 -> 4 [] id = 120 -> 8
+                     [] id = 121 -> 1 [] id = 113 -> 2 [] id = 117 -> 4 [] id = 116 -> 8
+                     [] id = 102 -> 4 [] id = 100 -> 8 [] id = 101 -> 16 [] OTHER -> 0
 McFixedManaged(id) == IF id = 30 THEN 1 ELSE 0
 McProbe == {0, 1, 2, 8, 9, 10, 11, 12, 13, 14, 20, 21, 22, 23, 24, 25, 30, 40, 41, 42, 43, 44, 45, 50}
 Bound == Cardinality(DOMAIN reg) - Cardinality(DOMAIN BuiltinReg) <= MaxAdds
